@@ -102,3 +102,16 @@ func TestRegressionReadBytesSplitReads(t *testing.T) {
 		t.Fatalf("ReadBytes(0) at end of stream: %x, %v", got, err)
 	}
 }
+
+// RegInner is exported because serix refuses inlined unexported embedded structs.
+type RegInner struct {
+	X uint8 `serix:""`
+}
+type regKeyedInline struct {
+	RegInner `serix:"inner,inlined"`
+	Y        uint8 `serix:""`
+}
+
+func TestRegressionInlinedFieldWithKeyJSON(t *testing.T) {
+	roundTrip(t, serix.NewAPI(), &regKeyedInline{RegInner: RegInner{X: 3}, Y: 4})
+}
